@@ -324,6 +324,8 @@ type retained struct {
 	ret  []byte
 	snap []byte
 	bad  bool
+	// spared: the caller has appended into the spare capacity of the result (once, after a later call)
+	spared bool
 }
 
 func overlaps(a, b []byte) bool {
@@ -344,6 +346,25 @@ func (ts *taskState) checkRetained(tname string, by string) {
 			k.bad = true
 			ts.viol = append(ts.viol, Violation{Class: "result-clobbered", Sig: sig("result-clobbered", tname, FnNames[k.fn]), CallID: k.id,
 				Detail: fmt.Sprintf("the slice returned by call #%d %s held %q when it was returned and holds %q after %s: the result aliases memory that later calls reuse", k.id, FnNames[k.fn], k.snap, k.ret, by)})
+		}
+	}
+}
+
+// writeSpare: the caller owns a returned slice up to its capacity and, some time after it got
+// it, appends to it in place. Nothing else may live in that spare capacity: not a pooled buffer
+// another call is filling, not a later result.
+func (ts *taskState) writeSpare() {
+	for i := range ts.kept {
+		k := &ts.kept[i]
+		if k.spared {
+			continue
+		}
+		k.spared = true
+		if spare := k.ret[len(k.ret):cap(k.ret)]; len(spare) > 0 {
+			for j := range spare {
+				spare[j] = '#'
+			}
+			ts.probes["spare_capacity_written_later"]++
 		}
 	}
 }
@@ -554,6 +575,7 @@ func (rn *runner) execCalls(ts *taskState, calls []Call, want []pristinePair) {
 			}
 		}
 		o.patch = nil
+		ts.writeSpare()
 		// the caller keeps the returned slice (unless it is one of its own input buffers handed back)
 		if len(o.ret) > 0 {
 			alias := false
